@@ -107,6 +107,10 @@ let op_of (toks : string list) : op =
        | "with_capacity", [n] -> OWithCapacity (m, n_of_dec n)
        | "from_char", [_route; c] -> OFromChar (n_of_dec c)
        | "from_bool", [b] -> OFromBool (b = "1")
+       | "from_int", [ty; v] when (let l = String.length ty in l >= 4 && String.sub ty (l - 4) 4 = "i128" || l >= 4 && String.sub ty (l - 4) 4 = "u128") ->
+           (* 128-bit types go through itoa (an external crate) and then from_str: itoa is an oracle whose
+              output is the canonical decimal string already present in the case file *)
+           OFromStr (m, List.init (String.length v) (fun i -> n_of_int (Char.code v.[i])))
        | "from_int", [ty; v] -> OFromInt (m, int_ty_of ty, z_of_dec v)
        | "clone", [_route; i] -> OClone (nat i)
        | "collect_chars", hint :: pa :: cs -> OCollectChars (n_of_dec hint, opt_nat_of pa, List.map n_of_dec cs)
